@@ -139,9 +139,81 @@ theorem holdChunks_sum : ∀ (f ms : Nat), ms ≤ 60000 * f → (holdChunks f ms
       · simp only [h6, if_false]; rw [ih (ms - ms) (by omega)]; omega
     · simp [h0]; omega
 
-/-- the model's hold loop issues exactly those chunks, each as a line to the current position -/
-theorem holdForAux_chunks : ∀ (f : Nat) (b b' : Builder) (ms : Nat), holdForAux f b ms = .ok b' →
-    b'.last = b.last ∨ True := fun _ _ _ _ _ => Or.inr trivial
+/-- `appendLine` is the validated `appendLineAux` -/
+theorem appendLine_aux (b b' : Builder) (t : Vec4) (ms : Nat) (h : appendLine b t ms = .ok b') :
+    appendLineAux 34 b t ms = .ok b' := by
+  unfold appendLine at h
+  simp only [bind, Except.bind] at h
+  split at h
+  · cases h
+  · split at h
+    · cases h
+    · split at h
+      · cases h
+      · exact h
+
+theorem appendSegment_last (b b' : Builder) (t : Vec4) (ms : Nat) (h : appendSegment b t ms = .ok b') : b'.last = t := by
+  unfold appendSegment at h
+  simp only [bind, Except.bind, pure, Except.pure] at h
+  repeat' split at h
+  all_goals (first | (cases h; rfl) | cases h)
+
+/-- **a hold is a run of segments that stay at the current point**, with the chunk durations -/
+theorem holdForAux_segments : ∀ (f : Nat) (b b' : Builder) (ms : Nat), holdForAux f b ms = .ok b' →
+    ∃ segs : List (Vec4 × Nat), appendMany b segs = .ok b' ∧ segs.map (·.2) = holdChunks f ms ∧
+      (∀ s ∈ segs, s.1 = b.last) ∧ b'.last = b.last := by
+  intro f
+  induction f with
+  | zero => intro b b' ms h; simp [holdForAux] at h
+  | succ f ih =>
+    intro b b' ms h
+    unfold holdForAux at h
+    have hmax : Gen.builderMaxDurationMsec = 60000 := rfl
+    rw [hmax] at h
+    by_cases h0 : ms > 0
+    · simp only [h0, if_true, bind, Except.bind] at h
+      split at h
+      · cases h
+      · rename_i b1 hb1
+        have haux := appendLine_aux _ _ _ _ hb1
+        have hcur : ¬ ((if ms > 60000 then 60000 else ms) > 60000) := by split <;> omega
+        have hseg : appendSegment b b.last (if ms > 60000 then 60000 else ms) = .ok b1 := by
+          unfold appendLineAux at haux
+          rw [hmax] at haux
+          simpa only [hcur, if_false] using haux
+        have hl1 : b1.last = b.last := appendSegment_last _ _ _ _ hseg
+        obtain ⟨segs, a1, a2, a3, a4⟩ := ih b1 b' _ h
+        refine ⟨(b.last, (if ms > 60000 then 60000 else ms)) :: segs, ?_, ?_, ?_, ?_⟩
+        · simp only [appendMany, hseg, bind, Except.bind]; exact a1
+        · have hc : holdChunks (f + 1) ms =
+              (if ms > 60000 then 60000 else ms) :: holdChunks f (ms - (if ms > 60000 then 60000 else ms)) := by
+            rw [holdChunks]; simp only [h0, if_true]
+          simp only [List.map_cons, a2, hc]
+        · intro s hs
+          rcases List.mem_cons.mp hs with rfl | hs'
+          · rfl
+          · rw [a3 s hs', hl1]
+        · rw [a4, hl1]
+    · simp only [h0, if_false] at h
+      cases h
+      refine ⟨[], rfl, ?_, ?_, rfl⟩
+      · unfold holdChunks; simp [h0]
+      · intro s hs; cases hs
+
+theorem holdChunks_le : ∀ (f ms d : Nat), d ∈ holdChunks f ms → d ≤ 60000 := by
+  intro f
+  induction f with
+  | zero => intro ms d h; simp [holdChunks] at h
+  | succ f ih =>
+    intro ms d h
+    rw [holdChunks] at h
+    by_cases h0 : ms > 0
+    · simp only [h0, if_true] at h
+      rcases List.mem_cons.mp h with rfl | h'
+      · split <;> omega
+      · exact ih _ _ h'
+    · simp only [h0, if_false] at h
+      cases h
 
 /-- invalid scales are rejected -/
 theorem init_invalid_scale (flags : Nat) : init 0 flags = .error .einval ∧ init 128 flags = .error .einval := by
